@@ -17,7 +17,7 @@ import (
 
 // C16 - pool management operations and queries agree with the denoted rule set.
 type C16Op struct {
-	Kind   string    `json:"kind"` // full | incr | remove | clear | setem | badfull | badincr | probe | exec
+	Kind   string    `json:"kind"` // full | refull (byte-identical text of the last full update / construction) | incr | remove | clear | setem | badfull | badincr | probe | exec
 	Rules  []C08Rule `json:"rules,omitempty"`
 	Remove []string  `json:"remove,omitempty"`
 	EM     int       `json:"em,omitempty"`
@@ -64,8 +64,10 @@ func init() {
 			for i := 0; i < n; i++ {
 				pfx := fmt.Sprintf("op%d_", i)
 				switch k := uni(t, pfx+"kind", 0, 19); {
-				case k <= 1:
+				case k == 0:
 					c.Ops = append(c.Ops, C16Op{Kind: "full", Rules: genC08Rules(t, pfx, i+1)})
+				case k == 1:
+					c.Ops = append(c.Ops, C16Op{Kind: "refull"})
 				case k <= 5:
 					c.Ops = append(c.Ops, C16Op{Kind: "incr", Rules: genC08Rules(t, pfx, i+1)})
 				case k <= 8:
@@ -114,6 +116,7 @@ func checkC16(ci interface{}, x *Ctx) {
 	lastMgmt := ""
 	updatedSinceProbe := true
 	hist := func(step int) string { return jsonStr(c.Ops[:step+1]) }
+	lastFullText, lastFullRules, lastFullTags := text0, c.Init, tags0
 	for step, op := range c.Ops {
 		var opErr error
 		var pan string
@@ -122,8 +125,20 @@ func checkC16(ci interface{}, x *Ctx) {
 			sig += "-after-clear"
 		}
 		switch op.Kind {
+		case "refull":
+			x.Class("identical-full-text-resubmitted")
+			opErr, pan = guard(func() error { return p.UpdatePooledRules(lastFullText) })
+			if opErr == nil && pan == "" {
+				model = map[string]c08Entry{}
+				for _, r := range lastFullRules {
+					model[r.Name] = c08Entry{r.Sal, r.Desc, lastFullTags[r.Name]}
+				}
+				cleared = false
+			}
+			updatedSinceProbe = true
 		case "full":
 			text, tags := c16Text(op.Rules, int64((step+1)*100))
+			lastFullText, lastFullRules, lastFullTags = text, op.Rules, tags
 			opErr, pan = guard(func() error { return p.UpdatePooledRules(text) })
 			if opErr == nil && pan == "" {
 				model = map[string]c08Entry{}
@@ -191,7 +206,7 @@ func checkC16(ci interface{}, x *Ctx) {
 			return
 		}
 		switch op.Kind {
-		case "full", "incr":
+		case "full", "incr", "refull":
 			if opErr != nil {
 				x.Violation("op-rejected:"+sig, "step %d (%s) rejected a valid update: %v\nhistory %s", step, op.Kind, opErr, hist(step))
 				return
